@@ -87,7 +87,28 @@ type Options struct {
 	Flags     []string // build flags (-tags=...)
 	Tests     bool
 	Config    *config.Config // command-line config; nil = config.DefaultConfig
-	CacheDir  string         // persistent cache directory; "" = fresh temporary one, removed afterwards
+	CacheDir  string         // cache directory; "" = one directory per test process (see FreshCache)
+	// FreshCache uses an empty cache that is removed afterwards. The default is a
+	// per-process cache, as a user's repeated staticcheck runs would have: results
+	// of dependencies (std) are computed once per process instead of once per case.
+	// Cache transparency itself is the subject of C04/C05.
+	FreshCache bool
+}
+
+var (
+	procCacheOnce sync.Once
+	procCacheDir  string
+)
+
+func processCache() string {
+	procCacheOnce.Do(func() {
+		d, err := os.MkdirTemp("", "rn-proc-cache-")
+		if err != nil {
+			panic(err)
+		}
+		procCacheDir = d
+	})
+	return procCacheDir
 }
 
 var saltOnce sync.Once
@@ -97,13 +118,15 @@ var saltOnce sync.Once
 func Run(opts Options, analyzers []*analysis.Analyzer, patterns []string, fn func([]runner.Result) error) error {
 	saltOnce.Do(func() { cache.SetSalt([]byte("verif-harness")) })
 	dir := opts.CacheDir
-	if dir == "" {
+	if opts.FreshCache {
 		d, err := os.MkdirTemp("", "rncache-")
 		if err != nil {
 			return err
 		}
 		defer os.RemoveAll(d)
 		dir = d
+	} else if dir == "" {
+		dir = processCache()
 	}
 	c, err := cache.Open(dir)
 	if err != nil {
